@@ -13,7 +13,7 @@ type Engine struct{ Prop string }
 func (e Engine) ID() string { return e.Prop }
 
 func (e Engine) CoqHeader() string {
-	return "From Eino Require Import Base.Util Model.RunLoop Model.Interrupt Corr." + e.Prop + ".\n"
+	return "From Eino Require Import Base.Util Model.Graph Model.RunLoop Model.Interrupt Model.IntrObs Corr." + e.Prop + ".\nOpen Scope N_scope.\n"
 }
 
 func (e Engine) CoqCaseType() string { return "ccase" }
